@@ -363,13 +363,16 @@ def work_sync(chunk):
         res.outcome("sync:" + ("value" if out.kind == "ok" else out.exc_name))
         v = judge_sync(case["strays"], case["reply_at"], out, el, T, bool(size))
         if v:
-            confirmed = True
+            # re-run three times: every class must reproduce each time, except an overrun under a *flood* - whether a flood
+            # leaves no gap of a millisecond depends on the scheduler, so two reproductions out of three are enough there
+            same = 0
             for _ in range(3):
                 out2, el2 = run_sync_schedule(cfg, case["strays"], case["reply_at"], case.get("op", "get"), T, size)
                 v2 = judge_sync(case["strays"], case["reply_at"], out2, el2, T, bool(size))
-                if not v2 or v2[0] != v[0]:
-                    confirmed = False
-                    break
+                if v2 and v2[0] == v[0]:
+                    same += 1
+            flood = bool(case["strays"]) and case["strays"][0] == "flood"
+            confirmed = same == 3 or (flood and v[0] == "overrun" and same >= 2)
             if confirmed:
                 k = len(case["strays"])
                 spacing = ("burst" if k < 50 else "many") if k and case["strays"][0] != "flood" and case["strays"][0] < 0.1 * T_SYNC else ("flood" if k and case["strays"][0] == "flood" else "spaced")
@@ -584,6 +587,7 @@ def run(tier):
     for cfg in cfgs[:3]:
         scases.append({"driver": "sync", "cfg": cfg.describe(), "strays": [0.01 * T_SYNC + 0.0005 * i for i in range(150)], "reply_at": 0.6 * T_SYNC})
         scases.append({"driver": "sync", "cfg": cfg.describe(), "strays": ["flood", 0.0, 0.7 * T_SYNC], "reply_at": None})
+        scases.append({"driver": "sync", "cfg": cfg.describe(), "strays": ["flood", 0.1 * T_SYNC, 0.8 * T_SYNC], "reply_at": None})
     # time-outs above 2^32 ns (the nanosecond count no longer fits 32 bits)
     # (a timer never fires early, so the silent agent is the sharp case; long waits overshoot by a few per cent on this host)
     for T_long in (4.3, 8.6) if thorough else (4.3,):
